@@ -90,7 +90,8 @@ PROPS = {
         "assumed": ["stored versions are >= 1 (precondition R_versions; `64 - leading_zeros(0) - 1` would underflow)"],
     },
     "C03": {
-        "verus": [("directory_lookup", ["Directory.create_single_update_proof", "Directory.key_history__tail", "Directory.derive_commitment_key", "lemma_min_max", "Azks.get_latest_epoch"]),
+        "verus": [("directory_lookup", ["Directory.create_single_update_proof", "Directory.key_history__head", "Directory.key_history__tail", "Directory.derive_commitment_key", "lemma_min_max",
+                                        "lemma_mask_is_filter", "Azks.get_latest_epoch"]),
                   ("verify_history", ["verify_single_update_proof"])],
         "scope": "partial (server-side ASSEMBLY of a key-history answer from the selected states + agreement with the verifier; not the selection itself, not the tree contents): "
                  "create_single_update_proof fills an update proof for one stored state with the fields the verifier checks - epoch/version/value of the state, the VRF proof and membership proof of "
@@ -98,11 +99,14 @@ PROPS = {
                  "emptiness test to the end, R-SEGMENT) errors on an empty selection, produces exactly one update proof per selected state in order, computes the marker versions with the SAME "
                  "get_marker_versions(oldest selected version, newest selected version, served epoch) the verifier calls, and for every past marker a VRF proof + membership proof of (Fresh, marker), for "
                  "every future marker a VRF proof + NON-membership proof of (Fresh, marker), in the order of those lists, and returns them with (served epoch, root hash of the epoch record it was given). "
-                 "Not decided: the head of key_history (reading the states, the epoch <= current filter, newest-first sort, MostRecent(n) cut: closures over Vec), that the tree contains these leaves (C01), "
+                 "the head of key_history (R-SEGMENT up to the emptiness test; closures through R-CLOSPEC, the MostRecent cut through R-TAKE): the selected states are exactly the stored states of the label that are "
+                 "NOT NEWER than the epoch of the ONE epoch record read, newest first, all of them or the newest min(N, total). Not decided: that the tree contains these leaves (C01), "
                  "that honest membership / non-membership proofs verify (C05 completeness); create_single_update_proof re-reads the epoch record per update (T6: one request sees one storage state).",
         "trusted": ["T4 the VRF as functions; R-UFCS; T6 storage / tree reads as functions of what one request sees",
                     "the unit is verified as compiled WITHOUT the default feature preload_history (that block only warms the cache: an iterator chain over both marker lists)",
-                    "get_marker_versions is a function of its arguments (its contents are proved under C08)", "<[T]>::to_vec is an element-wise clone (assumed std contract)"],
+                    "get_marker_versions is a function of its arguments (its contents are proved under C08)", "<[T]>::to_vec is an element-wise clone (assumed std contract)",
+                    "assumed std contracts: Vec::retain (keeps, in order, exactly the elements the predicate answered true for), <[T]>::sort_by (rearrangement; no earlier element compares Greater than a later one); "
+                    "R-CLOSPEC gives the two closures their ensures (proved against their bodies), R-TAKE models into_iter().take(n).collect() as the first min(n, len) elements"],
         "assumed": ["stored states satisfy 1 <= version <= epoch of the state (precondition of the segment: get_marker_versions needs start <= end <= epoch)"],
     },
     "C10": {
@@ -172,12 +176,12 @@ PROPS = {
     "C11": {
         "verus": [("tree_node", [TN + "determine_node_to_get", TN + "get_appropriate_tree_node_from_storage", TN + "write_to_storage", "TreeNode.write_to_storage", "lemma_rot"]),
                   ("manager", [SM + "commit_transaction", SM + "tic_toc", SM + "increment_metric", "DbRecord.transaction_priority"]),
-                  "azks_insert", ("directory_lookup", ["Directory.get_lookup_info", "Directory.build_lookup_info", "get_marker_version", "Azks.get_latest_epoch"])],
+                  "azks_insert", ("directory_lookup", ["Directory.get_lookup_info", "Directory.build_lookup_info", "get_marker_version", "Azks.get_latest_epoch", "Directory.key_history__head", "lemma_mask_is_filter"])],
         "scope": "partial, record level: TreeNode::write_to_storage writes exactly {label, latest: self, previous: as-of(stored, epoch-1) or None when new}; rotation lemma: that record still "
                  "serves the as-of-(E) node at E and serves the new node at E+1; readers select by target epoch; the batch a commit hands to the database is non-empty only with the epoch "
                  "record last (else Err before any database write); Azks has the lowest commit priority; write discipline of the recursive batch insertion "
                  "(recursive_batch_insert_nodes: sequential branch, spawned task body and join): a node is written as brand new - dropping the previous-epoch state - only if it was constructed "
-                 "during this insertion (every write's is_new flag is the flag its subtree's insertion returned; the pushed-down existing node is written as existing); the lookup path filters value states by epoch <= the served epoch (get_lookup_info: LeqEpoch). "
+                 "during this insertion (every write's is_new flag is the flag its subtree's insertion returned; the pushed-down existing node is written as existing); the lookup path filters value states by epoch <= the served epoch (get_lookup_info: LeqEpoch) and so does the history path (key_history head: the selection keeps only states not newer than the epoch record read, BEFORE the MostRecent cut). "
                  "The crash-point quantifier over sets of records is not decided.",
         "trusted": ["T6 sequential semantics of async fns", "StorageManager::get/set external", "derived Clone is structural (companion)",
                     "'constructed during this insertion' is a knowledge token handed out by new_interior_node / new_leaf_node only; that no stored record exists for such a label is the trie invariant, not proved",
